@@ -10,9 +10,10 @@ use marwood::vm::verif::GcMode;
 use serde_json::{json, Value};
 use std::collections::HashSet;
 
-const CONTEXTS: [&str; 23] = [
+const CONTEXTS: [&str; 24] = [
     "if-then", "if-else", "cond-else", "cond-test", "cond-arrow", "case-hit", "case-else", "and", "or", "when", "unless", "let",
     "let*", "letrec", "named-let", "begin", "apply", "apply-spread", "call/cc", "call/cc-k", "eval", "lambda-app", "let-internal-define",
+    "let-procedure",
 ];
 
 /// wrap the tail call text `e` so that it stays in tail position
@@ -30,6 +31,8 @@ fn wrap(ctx: &str, e: &str, uniq: usize) -> String {
         "when" => format!("(when (= 1 1) 'x {})", e),
         "unless" => format!("(unless (= 1 2) 'x {})", e),
         "let" => format!("(let ((t{u} 1) (s{u} 2)) {e})", u = uniq, e = e),
+        // a let that binds a procedure: the application it expands to has a lambda expression operand
+        "let-procedure" => format!("(let ((t{u} (lambda (v) (+ v 1))) (s{u} 2)) {e})", u = uniq, e = e),
         "let*" => format!("(let* ((t{u} 1) (s{u} t{u})) {e})", u = uniq, e = e),
         "letrec" => format!("(letrec ((t{u} (lambda () 1))) {e})", u = uniq, e = e),
         "named-let" => format!("(let lp{u} ((q{u} 0)) (if (< q{u} 1) (lp{u} (+ q{u} 1)) {e}))", u = uniq, e = e),
@@ -71,6 +74,9 @@ pub struct Family {
     /// the procedures take over the names of built-in procedures (redefinition of globals: a caller
     /// is compiled while its callee's name still denotes the built-in)
     pub builtin_names: bool,
+    /// every procedure of the family takes a procedure as an extra first argument and every call
+    /// passes a fresh lambda expression (that captures nothing) in that position
+    pub closure_arg: bool,
 }
 
 const BUILTIN_NAMES: [&str; 3] = ["even?", "odd?", "truncate"];
@@ -102,7 +108,10 @@ impl Family {
             let argc = n_arity + if *n_rest { 2 } else { 0 };
             // arguments depend on the iteration so that a frame rewrite that loses or misplaces
             // one is seen by the callee (which compares them with the counter)
-            let args: Vec<String> = (0..argc).map(|a| format!("(+ %i {})", a + 1)).collect();
+            let mut args: Vec<String> = (0..argc).map(|a| format!("(+ %i {})", a + 1)).collect();
+            if self.closure_arg {
+                args.insert(0, "(lambda (v) (+ v 1))".to_string());
+            }
             let proc = self.proc_name((pi + 1) % np);
             let mut call = if args.is_empty() { format!("({})", proc) } else { format!("({} {})", proc, args.join(" ")) };
             // a context that rewrites the call itself (apply / eval) is applied first (innermost,
@@ -114,7 +123,10 @@ impl Family {
                 uniq += 1;
                 call = wrap(ctx, &call, uniq);
             }
-            let params: Vec<String> = (0..*arity).map(|a| format!("a{}", a)).collect();
+            let mut params: Vec<String> = (0..*arity).map(|a| format!("a{}", a)).collect();
+            if self.closure_arg {
+                params.insert(0, "f".to_string());
+            }
             let formals = if *rest {
                 if params.is_empty() {
                     "r".to_string()
@@ -125,6 +137,9 @@ impl Family {
                 format!("({})", params.join(" "))
             };
             let mut checks: Vec<String> = (0..*arity).map(|a| format!("(= a{} (+ %i {}))", a, a + 1)).collect();
+            if self.closure_arg {
+                checks.push("(= (f %i) (+ %i 1))".to_string());
+            }
             if *rest {
                 checks.push(format!("(if (pair? r) (= (car r) (+ %i {})) #t)", arity + 1));
                 checks.push("(<= (length r) 2)".to_string());
@@ -148,7 +163,10 @@ impl Family {
     pub fn start_call(&self) -> String {
         let (arity, rest, _) = &self.procs[0];
         let argc = arity + if *rest { 1 } else { 0 };
-        let args: Vec<String> = (0..argc).map(|a| format!("(+ %i {})", a + 1)).collect();
+        let mut args: Vec<String> = (0..argc).map(|a| format!("(+ %i {})", a + 1)).collect();
+        if self.closure_arg {
+            args.insert(0, "(lambda (v) (+ v 1))".to_string());
+        }
         if args.is_empty() {
             format!("({})", self.proc_name(0))
         } else {
@@ -181,7 +199,9 @@ pub fn random_family(rng: &mut Rng) -> Family {
         })
         .collect();
     let builtin_names = rng.chance(1, 5);
-    Family { procs, uses_eval, builtin_names }
+    // (a procedure object is not a datum eval accepts, so not together with the eval context)
+    let closure_arg = !uses_eval && rng.chance(1, 5);
+    Family { procs, uses_eval, builtin_names, closure_arg }
 }
 
 #[derive(Clone, Debug)]
@@ -269,6 +289,7 @@ fn to_json(tc: &TailCase) -> Value {
     json!({
         "family": tc.family.procs.iter().map(|p| json!({"arity": p.0, "rest": p.1, "contexts": p.2})).collect::<Vec<_>>(),
         "builtin_names": tc.family.builtin_names,
+        "closure_arg": tc.family.closure_arg,
         "ns": tc.ns,
         "knobs": {"slot_order_seed": tc.knobs.slot_order_seed, "heap_chunk": tc.knobs.heap_chunk},
         "gc": crate::case::gc_to_json(&tc.gc),
@@ -294,7 +315,7 @@ fn from_json(v: &Value) -> Result<TailCase, String> {
         .collect::<Vec<(usize, bool, Vec<String>)>>();
     let uses_eval = procs.iter().any(|p| p.2.iter().any(|c| c == "eval"));
     Ok(TailCase {
-        family: Family { procs, uses_eval, builtin_names: v["builtin_names"].as_bool().unwrap_or(false) },
+        family: Family { procs, uses_eval, builtin_names: v["builtin_names"].as_bool().unwrap_or(false), closure_arg: v["closure_arg"].as_bool().unwrap_or(false) },
         ns: v["ns"].as_array().map(|a| a.iter().map(|n| n.as_u64().unwrap_or(10)).collect()).unwrap_or_else(|| vec![10, 1000]),
         knobs: Knobs {
             slot_order_seed: v["knobs"]["slot_order_seed"].as_u64().unwrap_or(0),
@@ -473,7 +494,7 @@ pub fn run(tier: Tier, seed: u64, ev: &mut Evidence) -> Vec<Violation> {
         Tier::Quick => (700, vec![10, 1000, 100_000]),
         Tier::Thorough => (20_000, vec![10, 1000, 100_000]),
     };
-    ev.rule = "loop families: 1-3 procedures calling each other in a cycle through a chain of 0-3 tail contexts drawn from 23 (if/cond/case/and/or/\
+    ev.rule = "loop families: 1-3 procedures calling each other in a cycle through a chain of 0-3 tail contexts drawn from 24 (if/cond/case/and/or/\
                when/unless branches, let-family and begin bodies, internal-define body, immediately applied lambda, cond =>, apply, call/cc, eval), \
                caller/callee arities 0-4 with and without rest parameters; each family runs n in {10, 10^3, 10^5} iterations (eval loops capped \
                at 2*10^4) in one VM; the stack pointer is sampled at every instruction boundary: the high-water mark must be the same for every n, \
